@@ -781,3 +781,40 @@ def rule_enqueue_registers(ctx, r):
         if bound != {"tid": 7, "name": "N", "script": "S", "working_dir": "/w", "time_limit": 5, "deps": [1, 2]}:
             problems.append(f"the worker coroutine is started with {bound}")
     r.check(not problems, con, "id 7 -> worker task + SUBMITTED, coroutine(tid=7, request fields), returns 7", "enqueue_task: " + "; ".join(problems), m.where)
+
+
+def removals_from(tree, attrs):
+    """(node, attribute, how) for every statement that removes entries from self.<attr> (attr in attrs): del self.a[k], self.a.pop(..), .popitem(), .clear(),
+    or a rebinding self.a = <new table> outside __init__-time defaults."""
+    out = []
+    for n in ast.walk(tree):
+        if isinstance(n, ast.Delete):
+            for t in n.targets:
+                if isinstance(t, ast.Subscript) and isinstance(t.value, ast.Attribute) and dotted(t.value.value) == "self" and t.value.attr in attrs:
+                    out.append((n, t.value.attr, "del"))
+        elif isinstance(n, ast.Call) and isinstance(n.func, ast.Attribute) and n.func.attr in ("pop", "popitem", "clear") \
+                and isinstance(n.func.value, ast.Attribute) and dotted(n.func.value.value) == "self" and n.func.value.attr in attrs:
+            out.append((n, n.func.value.attr, "." + n.func.attr + "()"))
+        elif isinstance(n, ast.Assign):
+            for t in n.targets:
+                if isinstance(t, ast.Attribute) and dotted(t.value) == "self" and t.attr in attrs:
+                    out.append((n, t.attr, "rebinding"))
+    return out
+
+
+def rule_tasks_never_forgotten(ctx, r, why):
+    """The pool's state table and task table only grow: no method of the Scheduler removes an entry (an id that was handed out answers state queries and cancel requests for
+    the pool's lifetime).  Expected count on a healthy tree: zero removal sites - the matcher is exercised on a built-in positive example at every run."""
+    from ..index import loc
+    info = scheduler_info(ctx)
+    attrs_ = {info["states"], info["tasks"]}
+    sample = ast.parse("class S:\n    def f(self, t):\n        self.task_states.pop(t, None)\n        del self.tasks[t]\n")
+    if [x[2] for x in removals_from(sample, {"task_states", "tasks"})] != [".pop()", "del"] and sorted(x[2] for x in removals_from(sample, {"task_states", "tasks"})) != [".pop()", "del"]:
+        raise AnalysisError("rule_tasks_never_forgotten: the matcher does not recognise its own positive example")
+    ci = info["cls"]
+    n = 0
+    for m in ci.methods.values():
+        for node, attr, how in removals_from(m.node, attrs_):
+            n += 1
+            r.violation(f"{m.module.relpath}::{m.qual}::forgets-{attr}", f"Scheduler.{m.name} removes entries from self.{attr} ({how}): {why}", loc(node, m.module))
+    r.ok(f"{ci.module.relpath}::Scheduler::tables-only-grow", f"no method of the Scheduler removes an entry from self.{info['states']} / self.{info['tasks']} ({n} removal sites; matcher checked on a positive example)", ci.where)
